@@ -21,7 +21,9 @@ response context, the message it encodes and SIG/SREP; Responder::new certifies 
 this responder's certificate and the same idx, all taken from one enumerate().next() element that also supplies the
 destination address; (6) Google responses use encode(), RfcDraft13 encode_framed();
 (5b) the tree the responder signs is built under the C04 level-structure facts (odd levels padded, node pairs consumed two by two, levels cleared on
-reset), so the signed ROOT is the root the returned PATH recomputes; (7) add_errors runs only on the true edge of should_add_error(), which is false whenever fault_percentage == 0; the
+reset), so the signed ROOT is the root the returned PATH recomputes; (5c) responder typestate over the whole program: a request is added and
+responses are sent only on a responder that was reset since its last send_responses (in process_events, in helpers, in their callers), so the
+tree never holds leaves of an earlier batch; (7) add_errors runs only on the true edge of should_add_error(), which is false whenever fault_percentage == 0; the
 Bernoulli ratio is (fault_percentage, 100); new_deliberately_invalid is only called from grease.
 """
 NOT_DECIDED = ("hash/signature values; number of PATH elements = depth of the batch (loop-count fact); the share of faulty "
@@ -392,6 +394,8 @@ def run(ctx):
         ctx.check("grease-gating", "Grease::new/ratio-is-percentage-over-100", okd, "dist = Bernoulli::from_ratio(fault_percentage, 100)",
                   "fault distribution is %s" % fmt(dist), gfn.loc(gbb, gidx))
     ctx.floor("grease-gating", len(gcs), 1, "Grease constructions")
+    # (5c) the tree a response's PATH / ROOT come from holds exactly the batch being answered: every add / send follows that responder's reset
+    sm.responder_typestate(ctx, W, "tree-is-this-batch")
     # Responder passes config.fault_percentage()
     gr = rfields.get("grease")
     okgr = is_call(gr, "Grease::new") and is_call(gr[2][0]) and gr[2][0][1].endswith("fault_percentage")
